@@ -740,8 +740,12 @@ func init() {
 		u := defaultUser()
 		big := idpUser{Sub: "user-big", Email: "big@example.com", EmailVerified: true, PreferredUser: strings.Repeat("p", 3000), Groups: []interface{}{strings.Repeat("g", 2500)}}
 		domSets := [][]string{nil, {".example.com"}, {".a.example.com", ".example.com"}, {".x.a.example.com", ".a.example.com", ".example.com"}, {"other.org"},
-			{".example.com", ".example.com", ".internal.app.example.com"}, {".x.a.example.com", ".example.com", ".x.a.example.com", ".a.example.com"}}
-		hosts := []string{"app.example.com", "x.a.example.com", "deep.x.a.example.com:8080", "x.a.example.com:443", "unrelated.net", "unrelated.net:81", "[::1]:8080", "example.com"}
+			{".example.com", ".example.com", ".internal.app.example.com"}, {".x.a.example.com", ".example.com", ".x.a.example.com", ".a.example.com"},
+			// written shortest first / in no particular order / with two domains of equal length (the shortest stays unique: which of
+			// several equally short domains an unrelated host gets is not determined by the property)
+			{"example.com", "a.example.com", "x.a.example.com"}, {".b.example.com", ".a.b.example.com", ".example.com"}, {".aa.example.com", ".example.com", ".bb.example.com"}}
+		hosts := []string{"app.example.com", "x.a.example.com", "deep.x.a.example.com:8080", "x.a.example.com:443", "unrelated.net", "unrelated.net:81", "[::1]:8080", "example.com",
+			"y.a.b.example.com", "z.bb.example.com", "aa.example.com"}
 		n := 0
 		for _, secure := range []bool{false, true} {
 			for _, httponly := range []bool{false, true} {
